@@ -1730,4 +1730,200 @@ Section Inv.
         exists s', r, m. rewrite <- Hk. splits; try assumption; lia.
     Qed.
   End Faults.
+
+  (* ==== shrinking truncation ====
+     adfFileTruncate sets the new size first and seeks to the new end while the block lists still hold the blocks that are about to be
+     released: the seek lemmas are needed for a state whose lists are LONGER than its size demands (CBl), and they deliver the facts
+     about the loaded block (Loaded) instead of the full invariant. *)
+  Definition CBl (s : hstate) (L E : list Z) : Prop := Base s L E /\ size2db (fsize s) bs <= len L /\ chg s = false.
+
+  Definition Loaded (t s' : hstate) (L E : list Z) (k : Z) : Prop :=
+    dk s' = dk t /\ chg s' = false /\ cext_ok s' L E /\ fh s' = fh t /\ mw s' = mw t /\ mr s' = mr t /\
+    0 <= k < len L /\ cur s' = nthZ L k /\ ndb s' = k + 1 /\ dk t (nthZ L k) = BData (cdata s') /\ ext_cursor s' L E k.
+
+  Lemma cbl_data s L E k : CBl s L E -> 0 <= k < len L ->
+    exists d, dk s (nthZ L k) = BData d /\ len (d_bytes d) = bs /\ (ofs = true -> k + 1 < len L -> d_next d = nthZ L (k + 1)).
+  Proof. intros (B & _ & Hc) Hk. destruct (b_ddisk _ _ _ B k Hk) as [(_ & Hx)|H]; [congruence|exact H]. Qed.
+
+  Lemma cbl_ext s L E j : CBl s L E -> 0 <= j < len E -> dk s (nthZ E j) = BExt (enc_x L E j).
+  Proof. intros (B & _ & Hc) Hj. destruct (b_xdisk _ _ _ B j Hj) as [H|(H & _)]; [assumption|congruence]. Qed.
+
+  Lemma cbl_frame s s' L E : CBl s L E -> dk s' = dk s -> chg s' = false -> cext_ok s' L E -> fh s' = fh s -> Base s' L E.
+  Proof.
+    intros C Hdk Hchg Hcx Hfh. pose proof C as (B & HL & Hc). constructor; unfold fsize; rewrite ?Hdk, ?Hchg, ?Hfh.
+    - apply (b_hdr _ _ _ B).
+    - apply (b_size _ _ _ B).
+    - apply (b_nE _ _ _ B).
+    - apply (b_nodup _ _ _ B).
+    - apply (b_ge2 _ _ _ B).
+    - exact Hcx.
+    - intros j Hj. left. apply (cbl_ext s L E j C Hj).
+    - intros k Hk. right. apply (cbl_data s L E k C Hk).
+    - discriminate.
+  Qed.
+
+  Lemma db2ext_mono a b : 0 <= a <= b -> db2ext a <= db2ext b.
+  Proof. intros H. unfold db2ext, MAXDB. destruct (Z.ltb_spec a 1); destruct (Z.ltb_spec b 1); lia. Qed.
+
+  Lemma read_ext_n_l t s L E ext : CBl t L E -> dk s = dk t -> fh s = fh t -> 0 <= ext < size2ext (fsize t) bs ->
+    read_ext_n bs nobad s ext = (true, set_cext s (Some (enc_x L E ext))).
+  Proof.
+    intros C Hdk Hfh He. pose proof C as (B & HL & Hc). unfold read_ext_n. unfold fsize at 1. rewrite Hfh. fold (fsize t).
+    assert (HlE : size2ext (fsize t) bs <= len E).
+    { unfold size2ext. rewrite (b_nE _ _ _ B). apply db2ext_mono. split; [|exact HL]. unfold size2db. pose proof (b_size _ _ _ B).
+      assert (0 <= fsize t / bs) by (apply Z.div_pos; lia). destruct (0 <? fsize t mod bs); lia. }
+    destruct (Z.ltb_spec ext 0); [lia|]. destruct (Z.ltb_spec (size2ext (fsize t) bs - 1) ext); [lia|]. cbn [orb].
+    pose proof (b_hdr _ _ _ B) as (_ & _ & _ & _ & Hext). rewrite Hext. replace 0 with (-1 + 1) at 1 by lia.
+    rewrite (ext_walk_ok L E ext (Z.to_nat (ext + 1)) s (-1)); try lia.
+    - destruct (Z.ltb_spec (-1) ext); [|lia]. rewrite Z.eqb_refl. reflexivity.
+    - intros j Hj. rewrite Hdk. apply (cbl_ext t L E j C Hj).
+    - intros j Hj. apply (b_ge2 _ _ _ B). apply in_or_app. right. apply in_E_nth. assumption.
+  Qed.
+
+  Lemma seek_mid_l t L E : CBl t L E -> 0 <= pos t < fsize t -> cext_ok t L E ->
+    exists s', seek_mid bs nobad t = (true, s') /\ Loaded t s' L E (pos t / bs) /\ pos s' = pos t /\ pind s' = pos t mod bs.
+  Proof.
+    intros C Hp Hcx. pose proof C as (B & HL & Hc). set (p := pos t) in *. set (k := p / bs).
+    assert (Hk0 : 0 <= k < size2db (fsize t) bs) by (subst k; apply idx_in_range; lia).
+    assert (Hk : 0 <= k < len L) by lia.
+    assert (Hpm : 0 <= p mod bs < bs) by (apply Z.mod_pos_bound; lia).
+    destruct (cbl_data t L E k C Hk) as (d & Hd & Hlen & Hnx).
+    assert (Hge : 2 <= nthZ L k) by (apply (b_ge2 _ _ _ B); apply in_or_app; left; apply in_L_nth; assumption).
+    assert (Hrd : forall u, dk u = dk t -> rd_data bs nobad u (nthZ L k) = Some d).
+    { intros u Hu. unfold rd_data, nobad. rewrite Hu, Hd. destruct (Z.ltb_spec (nthZ L k) 1); [lia|]. reflexivity. }
+    pose proof (b_hdr _ _ _ B) as (_ & Htab & _).
+    unfold seek_mid. fold p. rewrite (pos2db_spec p ltac:(lia)). fold k.
+    destruct (Z.ltb_spec k 72) as [H72|H72].
+    - cbn -[Z.ltb Z.eqb nthZ]. rewrite Htab. rewrite nthZ_subZ by lia. replace (0 + k) with k by lia.
+      change (-1 =? -1) with true. cbn -[Z.ltb Z.eqb nthZ].
+      destruct (Z.ltb_spec (nthZ L k) 2); [lia|]. rewrite Hrd by reflexivity.
+      eexists. split; [reflexivity|]. unfold Loaded. cbn -[nthZ]. splits; try reflexivity; try assumption; try lia.
+      unfold ext_cursor. lia.
+    - set (ext := (k - 72) / 72). set (px := (k - 72) mod 72).
+      assert (He : 0 <= ext < size2ext (fsize t) bs) by (unfold size2ext, db2ext, MAXDB; destruct (Z.ltb_spec (size2db (fsize t) bs) 1); subst ext; lia).
+      assert (Hne : (ext =? -1) = false) by (destruct (Z.eqb_spec ext (-1)); [lia|reflexivity]).
+      cbn -[Z.ltb Z.eqb nthZ read_ext_n]. rewrite Hne.
+      assert (Hslot : nthZ (x_tab (enc_x L E ext)) px = nthZ L k).
+      { unfold enc_x. cbn [x_tab]. rewrite nthZ_subZ by (subst px; lia). f_equal. subst px ext. lia. }
+      set (t1 := set_ndb (set_pind (set_pinx t px) (p mod bs)) k).
+      set (t2 := match cext t with Some _ => t1 | None => set_cext t1 (Some zero_x) end).
+      assert (Hrx : read_ext_n bs nobad t2 ext = (true, set_cext t2 (Some (enc_x L E ext)))).
+      { apply (read_ext_n_l t t2 L E ext C); try assumption; subst t2 t1; cbn; destruct (cext t); reflexivity. }
+      rewrite Hrx. cbn -[Z.ltb Z.eqb nthZ enc_x]. unfold cx. cbn -[Z.ltb Z.eqb nthZ enc_x].
+      assert (Hpx2 : pinx t2 = px) by (subst t2 t1; cbn; destruct (cext t); reflexivity).
+      rewrite Hpx2, Hslot. destruct (Z.ltb_spec (nthZ L k) 2); [lia|].
+      rewrite Hrd by (subst t2 t1; cbn; destruct (cext t); reflexivity).
+      eexists. split; [reflexivity|]. unfold Loaded. cbn -[nthZ enc_x].
+      assert (Hf2 : dk t2 = dk t /\ fh t2 = fh t /\ mw t2 = mw t /\ mr t2 = mr t /\ chg t2 = chg t /\ pos t2 = pos t /\ ndb t2 = k /\ pind t2 = p mod bs)
+        by (subst t2 t1; cbn; destruct (cext t); splits; reflexivity).
+      destruct Hf2 as (F1 & F2 & F3 & F4 & F5 & F6 & F7 & F8). rewrite ?F1, ?F2, ?F3, ?F4, ?F5, ?F6, ?F7, ?F8.
+      assert (HeE : 0 <= ext < len E) by (rewrite (lenE_of t L E B); destruct (Z.ltb_spec (len L) 1); subst ext; lia).
+      splits; try reflexivity; try assumption; try lia.
+      + unfold cext_ok. cbn -[enc_x]. right. exists ext. split; [assumption|reflexivity].
+      + unfold ext_cursor. cbn -[enc_x]. intros _. split; reflexivity.
+  Qed.
+
+  Lemma size2db_mono a b : 0 <= a <= b -> size2db a bs <= size2db b bs.
+  Proof.
+    intros H. destruct (size2db_spec a ltac:(lia)) as [Ha|[Ha1 Ha2]]; destruct (size2db_spec b ltac:(lia)) as [Hb|[Hb1 Hb2]]; try lia; try nia.
+  Qed.
+
+  Lemma size2db_nonneg a : 0 <= a -> 0 <= size2db a bs.
+  Proof. intros H. unfold size2db. assert (0 <= a / bs) by (apply Z.div_pos; lia). destruct (0 <? a mod bs); lia. Qed.
+
+  Lemma seek_eof_l s1 L E new : Inv s1 L E -> chg s1 = false -> 0 < new <= fsize s1 ->
+    let t := set_fh s1 (set_h_size (fh s1) new) in
+    exists s', seek_eof bs ofs nobad t = (true, s') /\ Loaded t s' L E ((new - 1) / bs) /\ pos s' = new
+      /\ pind s' = (if new mod bs =? 0 then bs else new mod bs) /\ len (d_bytes (cdata s')) = bs
+      /\ (ofs = true -> (new - 1) / bs + 1 < len L -> d_next (cdata s') = nthZ L ((new - 1) / bs + 1)).
+  Proof.
+    intros I Hc Hnew t. pose proof I as (B & HL & C). pose proof (b_size _ _ _ B) as Hsz.
+    assert (Hft : fsize t = new) by reflexivity.
+    assert (Bt : Base t L E).
+    { apply (base_frame2 s1); try reflexivity; try assumption; [apply (b_hdr _ _ _ B)|rewrite Hft; lia]. }
+    assert (Ct : CBl t L E) by (split; [exact Bt|split; [rewrite Hft, HL; apply size2db_mono; lia|exact Hc]]).
+    set (k := (new - 1) / bs).
+    assert (Hkr : 0 <= k < size2db new bs) by (subst k; apply idx_in_range; lia).
+    assert (HkL : 0 <= k < len L) by (pose proof (size2db_mono new (fsize s1) ltac:(lia)); lia).
+    assert (Hpm : 0 <= (new - 1) mod bs < bs) by (apply Z.mod_pos_bound; lia).
+    assert (Hdm : new - 1 = k * bs + (new - 1) mod bs) by (subst k; pose proof (Z.div_mod (new - 1) bs ltac:(lia)); lia).
+    (* the inner seek to new-1 *)
+    assert (Hinner : exists s2, seek_gen bs ofs nobad (fun u => (false, u)) t (new - 1) = (true, s2) /\ Loaded t s2 L E k /\ len (d_bytes (cdata s2)) = bs
+                       /\ (ofs = true -> k + 1 < len L -> d_next (cdata s2) = nthZ L (k + 1))).
+    { rewrite seek_gen_unfold.
+      (* facts about a buffered block of s1 (= of t) *)
+      assert (Hbuf : cur t <> 0 -> (if 0 <? ndb t then ndb t - 1 else 0) = k -> forall u, dk u = dk t -> chg u = false -> cext u = cext t -> fh u = fh t -> mw u = mw t -> mr u = mr t ->
+                     cur u = cur t -> ndb u = ndb t -> cdata u = cdata t -> pinx u = pinx t ->
+                     Loaded t u L E k /\ len (d_bytes (cdata u)) = bs /\ (ofs = true -> k + 1 < len L -> d_next (cdata u) = nthZ L (k + 1))).
+      { intros Hcz Hkk u U1 U2 U3 U4 U5 U6 U7 U8 U9 U10. change (cur t) with (cur s1) in *. change (ndb t) with (ndb s1) in *.
+        destruct C as [(_ & Hz & _)|(Hcu & Hnn & Hp & Hpi & Hle & Hlen & Hcl & Hnx & Hxc)]; [contradiction|].
+        destruct (Z.ltb_spec 0 (ndb s1)); [|lia]. unfold Loaded. rewrite U1, U2, U4, U5, U6, U7, U8, U9.
+        splits; try reflexivity; try assumption; try lia.
+        - unfold cext_ok. rewrite U3. apply (b_cext _ _ _ B).
+        - rewrite <- Hkk. exact Hcu.
+        - rewrite <- Hkk. rewrite <- Hcu. apply Hcl. exact Hc.
+        - unfold ext_cursor. rewrite U3, U10. rewrite <- Hkk. exact Hxc.
+        - intros Ho Hk1. replace (k + 1) with (ndb s1) by lia. apply Hnx; [exact Ho|lia]. }
+      destruct ((pos t =? new - 1) && negb (cur t =? 0) && negb (pind t =? bs)) eqn:H1.
+      - apply andb_prop in H1. destruct H1 as (H1 & H3). apply andb_prop in H1. destruct H1 as (H1 & H2). apply Z.eqb_eq in H1.
+        destruct (Z.eqb_spec (cur t) 0) as [|Hcz]; [discriminate|]. destruct (Z.eqb_spec (pind t) bs) as [|Hpb]; [discriminate|].
+        exists t. split; [reflexivity|]. apply Hbuf; try reflexivity; try assumption.
+        change (cur t) with (cur s1) in Hcz. destruct (normal_facts s1 L E I Hcz) as (_ & Hnn & Hp & Hpi & _).
+        change (ndb t) with (ndb s1). change (pos t) with (pos s1) in H1. change (pind t) with (pind s1) in Hpb.
+        destruct (Z.ltb_spec 0 (ndb s1)); [|lia]. subst k. rewrite <- H1, Hp. symmetry. apply div_block. lia.
+      - unfold seek_tail.
+        destruct (negb (cur t =? 0) && ((if 0 <? ndb t then ndb t - 1 else 0) =? (new - 1) / bs)) eqn:Hsame.
+        + apply andb_prop in Hsame. destruct Hsame as (Hcz & Hkk). destruct (Z.eqb_spec (cur t) 0) as [|Hcz']; [discriminate|]. apply Z.eqb_eq in Hkk.
+          eexists. split; [reflexivity|]. apply Hbuf; try reflexivity; assumption.
+        + unfold settle. change (chg t) with (chg s1). rewrite Hc, andb_false_r.
+          destruct (Z.eqb_spec (new - 1) 0) as [H0|H0].
+          * (* new = 1: the first block *)
+            assert (k = 0) by (subst k; rewrite H0; apply Z.div_0_l; lia).
+            unfold seek_start. set (t0 := set_cur (set_ndb (set_pind (set_pinx (set_pos t 0) 0) 0) 0) 0).
+            change (fsize t0) with new. destruct (Z.eqb_spec new 0); [lia|].
+            assert (B0 : Base t0 L E) by (apply (cbl_frame t t0 L E Ct); [reflexivity|exact Hc|apply (b_cext _ _ _ Bt)|reflexivity]).
+            destruct (read_next_ok t0 L E B0 Hc ltac:(cbn; lia) ltac:(unfold ext_cursor; cbn; lia) ltac:(cbn; lia))
+              as (sn & Hrn & Ndk & Npos & Npind & Nndb & Ncur & Ncd & Nlen & Nnx & Nchg & Nfh & Nmw & Nmr & Nxc & Ncx).
+            rewrite Hrn. exists sn. split; [reflexivity|]. cbn in *. unfold Loaded. subst k. rewrite H. splits; try assumption; try reflexivity; try lia.
+          * change (fsize (settle t)) with new. replace (Z.min (new - 1) (fsize t)) with (new - 1) by (rewrite Hft; lia).
+            change (pos (set_pos t (new - 1))) with (new - 1). change (fsize (set_pos t (new - 1))) with new.
+            destruct (Z.eqb_spec (new - 1) new); [lia|].
+            assert (C2 : CBl (set_pos t (new - 1)) L E).
+            { split; [apply (base_frame t); try reflexivity; exact Bt|split; [exact (proj1 (proj2 Ct))|exact Hc]]. }
+            destruct (seek_mid_l (set_pos t (new - 1)) L E C2 ltac:(change (pos (set_pos t (new - 1))) with (new - 1); change (fsize (set_pos t (new - 1))) with new; lia) (b_cext _ _ _ Bt)) as (s2 & Hsm & Hld & P2 & Pi2).
+            exists s2. split; [exact Hsm|]. cbn in Hld. fold k in Hld. split; [exact Hld|].
+            destruct Hld as (L1 & L2 & L3 & L4 & L5 & L6 & L7 & L8 & L9 & L10 & L11).
+            assert (Hd10 : dk t (nthZ L k) = BData (cdata s2)) by exact L10.
+            destruct (cbl_data t L E k Ct HkL) as (d & Hd & Hlen & Hnx). rewrite Hd in Hd10. injection Hd10 as <-. split; [exact Hlen|exact Hnx]. }
+    destruct Hinner as (s2 & Hin & Hld & Hlen2 & Hnx2).
+    unfold seek_eof. rewrite Hft. destruct (Z.eqb_spec new 0); [lia|]. rewrite Hin. cbn [negb].
+    destruct Hld as (L1 & L2 & L3 & L4 & L5 & L6 & L7 & L8 & L9 & L10 & L11).
+    assert (Hf2 : fsize s2 = new) by (unfold fsize; rewrite L4; reflexivity). rewrite Hf2.
+    eexists. split; [reflexivity|]. unfold Loaded. cbn. splits; try assumption; try reflexivity; lia.
+  Qed.
+
+  Lemma rest_exts_some : forall fuel t nextExt i nXOld nDOld, exists r, rest_exts nobad fuel t nextExt i nXOld nDOld = Some r.
+  Proof.
+    induction fuel as [|fuel IH]; intros t nextExt i nXOld nDOld; cbn [rest_exts]; [eexists; reflexivity|].
+    destruct (nextExt <=? 0); [eexists; reflexivity|].
+    destruct (rd_ext nobad t nextExt) as [x|] eqn:Hr.
+    - destruct (IH t (x_ext x) (i + 1) nXOld nDOld) as (r & ->). eexists; reflexivity.
+    - exfalso. unfold rd_ext, nobad in Hr. destruct (dk t nextExt); discriminate.
+  Qed.
+
+  Lemma blocks_to_remove_some s1 L E new : Inv s1 L E -> chg s1 = false -> 0 <= new < fsize s1 -> exists rem, blocks_to_remove bs nobad s1 new = Some rem.
+  Proof.
+    intros I Hc Hn. pose proof I as (B & HL & _). unfold blocks_to_remove. destruct (Z.ltb_spec (fsize s1) new); [lia|].
+    destruct (_ <? 1); [eexists; reflexivity|]. destruct (db2ext (size2db (fsize s1) bs) <? 1) eqn:Hx1; [eexists; reflexivity|].
+    destruct (db2ext (size2db new bs) <? 1) eqn:Hx2.
+    - destruct (rest_exts_some (Z.to_nat (db2ext (size2db (fsize s1) bs) + 1)) s1 (h_ext (fh s1)) (db2ext (size2db new bs)) (db2ext (size2db (fsize s1) bs)) (size2db (fsize s1) bs)) as (r & ->).
+      eexists; reflexivity.
+    - apply Z.ltb_ge in Hx1. apply Z.ltb_ge in Hx2.
+      assert (Cl : CBl s1 L E) by (split; [exact B|split; [rewrite HL; lia|exact Hc]]).
+      assert (Hmono : db2ext (size2db new bs) <= db2ext (size2db (fsize s1) bs)).
+      { apply db2ext_mono. split; [apply size2db_nonneg; lia|apply size2db_mono; lia]. }
+      rewrite (read_ext_n_l s1 (set_cext s1 (Some zero_x)) L E (db2ext (size2db new bs) - 1) Cl eq_refl eq_refl) by (unfold size2ext; lia).
+      cbn [negb]. match goal with |- context [rest_exts nobad ?f ?t ?a ?b ?c ?d] => destruct (rest_exts_some f t a b c d) as (r & ->) end.
+      eexists; reflexivity.
+  Qed.
 End Inv.
